@@ -44,6 +44,8 @@ def rscalar(rng):
 
 def cases(ctx):
   rng = ctx.rng
+  for _ in ctx.loop(24, 480):
+    yield ("threads", rng.getrandbits(32), ctx.pick(4, 6), ctx.pick(12, 30))
   for _ in ctx.loop(1500, 80000):
     # equality pairs
     f = rfilt(rng)
@@ -177,8 +179,67 @@ def check_composite(ctx, case, what, real, mdl, x, parts_out=None):
   return True
 
 
+def run_threads(ctx, case):
+  """Output-level laws evaluated from several threads at once (real
+  pre-emption): each thread builds its own filters, so nothing is shared by
+  the caller."""
+  import random
+  import sys
+  import threading
+  _, seed, nthreads, rounds = case
+  problems = []
+  old = sys.getswitchinterval()
+  sys.setswitchinterval(1e-6)
+
+  def worker(tid):
+    rng = random.Random("%s:%s" % (seed, tid))
+    x = [rng.randint(-4, 4) for _ in range(6)]
+    for j in range(rounds):
+      fs, gs = rfilt(rng), rfilt(rng)
+      c = rng.choice([2, -3, 4, 5])
+      kk = rng.randint(1, 3)
+      for what, build, mdl in (
+          ("add", lambda: mk(fs) + mk(gs), model(fs) + model(gs)),
+          ("scalar-mul", lambda: c * mk(fs), RF.const(c) * model(fs)),
+          ("mul", lambda: mk(fs) * mk(gs), model(fs) * model(gs)),
+          ("delay", lambda: z ** -kk * mk(fs),
+           RF({kk: Fraction(1)}) * model(fs))):
+        if not mdl.causal():
+          continue
+        try:
+          out = run_filter(build(), x)
+        except Exception as exc:  # noqa
+          problems.append((tid, j, what, repr(exc)))
+          return
+        num, den = mdl.normalised()
+        want = recursion(num, den, x, None, 0)
+        if out[0] != "out" or len(out[1]) != len(want) or any(
+            Lin.lift(g) != w for g, w in zip(out[1], want)):
+          problems.append((tid, j, what, fs, gs, repr(out)[:200]))
+          return
+  threads = [threading.Thread(target=worker, args=(t,)) for t in
+             range(nthreads)]
+  try:
+    for t in threads:
+      t.start()
+    for t in threads:
+      t.join(180)
+  finally:
+    sys.setswitchinterval(old)
+  ctx.count("concurrent-law-evaluations", nthreads * rounds * 4)
+  if any(t.is_alive() for t in threads):
+    ctx.count("harness_errors")
+    return True
+  if problems:
+    ctx.violation("concurrent-evaluation/wrong-output", case,
+                  problems=problems[:3])
+  return True
+
+
 def run_case(ctx, case):
   kind = case[0]
+  if kind == "threads":
+    return run_threads(ctx, case)
   if kind == "alg":
     return run_alg(ctx, case)
   if kind == "eq":
@@ -256,66 +317,66 @@ def run_alg(ctx, case):
   def outs(filt):
     r = run_filter(filt, x)
     return r[1] if r[0] == "out" else None
-  fo, go = outs(mk(fs)), outs(mk(gs))
+  fo, go = outs(f), outs(g)
   add = lambda a, b: [Lin.lift(p) + Lin.lift(q) for p, q in zip(a, b)]
   sub = lambda a, b: [Lin.lift(p) - Lin.lift(q) for p, q in zip(a, b)]
 
   ok = True
   ok = ok and check_composite(ctx, case, "add", f + g, mf + mg, x, add(fo, go))
-  ok = ok and check_composite(ctx, case, "sub", mk(fs) - mk(gs), mf - mg, x,
+  ok = ok and check_composite(ctx, case, "sub", f - g, mf - mg, x,
                               sub(fo, go))
-  ok = ok and check_composite(ctx, case, "add-commuted", mk(gs) + mk(fs),
+  ok = ok and check_composite(ctx, case, "add-commuted", g + f,
                               mf + mg, x)
   cf = [Lin.lift(v) * frac(c) for v in fo]
-  ok = ok and check_composite(ctx, case, "scalar-mul", c * mk(fs), mc * mf, x, cf)
-  ok = ok and check_composite(ctx, case, "scalar-rmul", mk(fs) * c, mc * mf, x, cf)
-  ok = ok and check_composite(ctx, case, "scalar-add", mk(fs) + c, mf + mc, x)
-  ok = ok and check_composite(ctx, case, "scalar-rsub", c - mk(fs), mc - mf, x)
+  ok = ok and check_composite(ctx, case, "scalar-mul", c * f, mc * mf, x, cf)
+  ok = ok and check_composite(ctx, case, "scalar-rmul", f * c, mc * mf, x, cf)
+  ok = ok and check_composite(ctx, case, "scalar-add", f + c, mf + mc, x)
+  ok = ok and check_composite(ctx, case, "scalar-rsub", c - f, mc - mf, x)
   inv_exact = isinstance(c, Fraction) or abs(c) in (1, 2, 4, 8, 0.5)
   if inv_exact:   # f / 3 multiplies by the float 1/3: rounding, not algebra
-    ok = ok and check_composite(ctx, case, "scalar-div", mk(fs) / c, mf / mc, x)
-  ok = ok and check_composite(ctx, case, "neg", -mk(fs), -mf, x,
+    ok = ok and check_composite(ctx, case, "scalar-div", f / c, mf / mc, x)
+  ok = ok and check_composite(ctx, case, "neg", -f, -mf, x,
                               [-Lin.lift(v) for v in fo])
   if not ok:
     return True
   # product = composition in either order
-  fg = run_filter(mk(fs), outs(mk(gs)))[1]
-  gf = run_filter(mk(gs), outs(mk(fs)))[1]
-  ok = ok and check_composite(ctx, case, "mul", mk(fs) * mk(gs), mf * mg, x, fg)
-  ok = ok and check_composite(ctx, case, "mul-commuted", mk(gs) * mk(fs),
+  fg = run_filter(f, outs(g))[1]
+  gf = run_filter(g, outs(f))[1]
+  ok = ok and check_composite(ctx, case, "mul", f * g, mf * mg, x, fg)
+  ok = ok and check_composite(ctx, case, "mul-commuted", g * f,
                               mf * mg, x, gf)
   # division, and (f/g)*g = f
-  ok = ok and check_composite(ctx, case, "div", mk(fs) / mk(gs), mf / mg, x)
+  ok = ok and check_composite(ctx, case, "div", f / g, mf / mg, x)
   ok = ok and check_composite(ctx, case, "div-then-mul",
-                              (mk(fs) / mk(gs)) * mk(gs), mf, x, fo)
-  ok = ok and check_composite(ctx, case, "scalar-rdiv", c / mk(gs), mc / mg, x)
-  ok = ok and check_composite(ctx, case, "self-division", mk(gs) / mk(gs),
+                              (f / g) * g, mf, x, fo)
+  ok = ok and check_composite(ctx, case, "scalar-rdiv", c / g, mc / mg, x)
+  ok = ok and check_composite(ctx, case, "self-division", g / g,
                               RF.const(1), x, list(x))
   if not ok:
     return True
   # powers
   cur = list(x)
   for _ in range(n):
-    cur = run_filter(mk(fs), cur)[1]
-  ok = ok and check_composite(ctx, case, "pow", mk(fs) ** n, mf ** n, x, cur)
+    cur = run_filter(f, cur)[1]
+  ok = ok and check_composite(ctx, case, "pow", f ** n, mf ** n, x, cur)
   ctx.count("pow:%d" % n)
   # pure delays
   delayed = ([0] * k + list(x))[:xlen]
   ok = ok and check_composite(ctx, case, "delay", z ** -k,
                               RF({k: Fraction(1)}), x, delayed)
-  ok = ok and check_composite(ctx, case, "delay-times-f", z ** -k * mk(fs),
+  ok = ok and check_composite(ctx, case, "delay-times-f", z ** -k * f,
                               RF({k: Fraction(1)}) * mf, x)
   if not ok:
     return True
   # associativity / distributivity through the real operators
-  ok = ok and check_composite(ctx, case, "assoc-add", (mk(fs) + mk(gs)) + mk(hs),
+  ok = ok and check_composite(ctx, case, "assoc-add", (f + g) + h,
                               mf + (mg + mh), x)
-  ok = ok and check_composite(ctx, case, "assoc-mul", mk(fs) * (mk(gs) * mk(hs)),
+  ok = ok and check_composite(ctx, case, "assoc-mul", f * (g * h),
                               (mf * mg) * mh, x)
   ok = ok and check_composite(ctx, case, "distributive",
-                              mk(fs) * (mk(gs) + mk(hs)), mf * mg + mf * mh, x)
+                              f * (g + h), mf * mg + mf * mh, x)
   if (mh + RF.const(k)).num:      # division by the zero filter is not generated
-    tree = (mk(fs) - c * mk(gs)) / (mk(hs) + k) * z ** -1
+    tree = (f - c * g) / (h + k) * z ** -1
     ok = ok and check_composite(ctx, case, "tree", tree,
                                 (mf - mc * mg) / (mh + RF.const(k)) *
                                 RF({1: Fraction(1)}), x)
@@ -361,7 +422,7 @@ def run_alg(ctx, case):
   sub_den = RF({})
   for kk, a in enumerate(fs[1]):
     sub_den = sub_den + RF.const(a) * ginv ** kk
-  sub_real = mk(fs)(mk(gs)) if sub_den.num else None   # else: division by zero
+  sub_real = f(g) if sub_den.num else None   # else: division by zero
   if sub_real is not None:
     rs = rf_of(sub_real)
     done = 0
@@ -384,10 +445,37 @@ def run_alg(ctx, case):
         return True
     if done:
       ctx.count("substitution-points-compared", done)
+  # the operand objects were used by every expression above: they must be
+  # exactly what they were (same polynomials, same behaviour)
+  for name, obj, spec, mdl in (("f", f, fs, mf), ("g", g, gs, mg),
+                               ("h", h, hs, mh)):
+    fresh = mk(spec)
+    same_polys = (dict(obj.numpoly.terms()) == dict(fresh.numpoly.terms()) and
+                  dict(obj.denpoly.terms()) == dict(fresh.denpoly.terms()))
+    ctx.count("operand-integrity-checked")
+    if not same_polys or not (obj == fresh) or hash(obj) != hash(fresh):
+      ctx.violation("operand-modified-by-an-expression", case, operand=name,
+                    num=repr(dict(obj.numpoly.terms())),
+                    den=repr(dict(obj.denpoly.terms())),
+                    want_num=repr(dict(fresh.numpoly.terms())),
+                    want_den=repr(dict(fresh.denpoly.terms())))
+      return True
+    if mdl.causal():
+      out = run_filter(obj, x)
+      num, den = mdl.normalised()
+      if out[0] != "out" or not compare_out(
+          ctx, case, "operand-after-reuse", out[1],
+          recursion(num, den, x, None, 0)):
+        if out[0] != "out":
+          ctx.violation("operand-after-reuse/refuses-to-run", case,
+                        operand=name, got=out)
+        return True
   return True
 
 
 def finish(ctx):
+  ctx.need("operand-integrity-checked", 300)
+  ctx.need("concurrent-law-evaluations", 200)
   for k in ["rational-function-compared", "output-laws-compared",
             "noncausal-composite", "shared-denominator-pair",
             "substitution-points-compared", "equal-pairs-hash-compared",
